@@ -1,6 +1,71 @@
 import TabulaModel.Util
+import TabulaModel.Model.PdfDoc
 namespace Tabula.C01H
+open Tabula Tabula.PdfDoc
 
-def handle (_op : String) (_args : List String) : String := "bad-op"
+def parseMB (s : String) : Option (Option (Int × Int × Int × Int)) :=
+  if s == "-" then some none else
+  match (s.splitOn ".").map String.toInt? with
+  | [some a, some b, some c, some d] => some (some (a, b, c, d))
+  | _ => none
+
+def parseAttrs (mb res rot : String) : Option Attrs := do
+  let mb ← parseMB mb
+  let res ← if res == "-" then some none else if res == "A" then some (some 0) else if res == "B" then some (some 1) else none
+  let rot ← if rot == "-" then some none else rot.toInt?.map some
+  pure { mb := mb, res := res, rot := rot }
+
+/-- tokens: "(" ")" and atoms; commas separate -/
+def tokenize (s : String) : List String :=
+  let rec go (cs : List Char) (cur : List Char) (acc : List String) : List String :=
+    match cs with
+    | [] => (if cur.isEmpty then acc else String.ofList cur.reverse :: acc).reverse
+    | c :: rest =>
+      let flush := if cur.isEmpty then acc else String.ofList cur.reverse :: acc
+      if c == '(' then go rest [] ("(" :: flush)
+      else if c == ')' then go rest [] (")" :: flush)
+      else if c == ',' then go rest [] flush
+      else go rest (c :: cur) acc
+  go s.toList [] []
+
+mutual
+partial def parseTree : List String → Option (PTree × List String)
+  | "(" :: "L" :: mb :: res :: rot :: ")" :: rest => do
+    let a ← parseAttrs mb res rot
+    pure (.leaf a, rest)
+  | "(" :: "N" :: mb :: res :: rot :: rest => do
+    let a ← parseAttrs mb res rot
+    let (kids, rest') ← parseKids rest
+    pure (.node a kids, rest')
+  | _ => none
+partial def parseKids : List String → Option (List PTree × List String)
+  | ")" :: rest => some ([], rest)
+  | toks => do
+    let (t, rest) ← parseTree toks
+    let (ts, rest') ← parseKids rest
+    pure (t :: ts, rest')
+end
+
+def showAttrs (a : Attrs) : String :=
+  let mb := match a.mb with | none => "-" | some (x, y, z, w) => s!"{x}.{y}.{z}.{w}"
+  let res := match a.res with | none => "-" | some 0 => "A" | some _ => "B"
+  let rot := match a.rot with | none => "0" | some r => toString r
+  s!"{mb}|{res}|{rot}"
+
+def handle (op : String) (args : List String) : String :=
+  match op, args with
+  | "c01.ptree", [t] =>
+    match parseTree (tokenize t) with
+    | some (tree, []) =>
+      let ls := flatten tree {}
+      s!"n={countLeaves tree} " ++ ";".intercalate (ls.map showAttrs)
+    | _ => "bad-op"
+  | "c01.join", [parts] =>
+    match (if parts == "" then some [] else (parts.splitOn ",").mapM unhex) with
+    | some ps =>
+      let ws := words (joinContents (ps.map (·.map (·.toNat))))
+      ",".intercalate (ws.map fun w => hex (w.map UInt8.ofNat))
+    | none => "bad-op"
+  | _, _ => "bad-op"
 
 end Tabula.C01H
